@@ -17,8 +17,8 @@ LEVEL_NOTE = ("Trusted: Coq kernel, constants reader, harness. fontTools cffLib 
 TECHNIQUE = "Coq proof of the CFF decision table (regenerated constants) + decision correspondence + observed rendering equality over the option grid"
 IMPORTS = "From U2F Require Import Base.Prelude Cff.Decision."
 RULE = ("random component fonts (lines, cubics, quadratics, integer coordinates so that every level rounds alike, kerning + a "
-        "liga feature for layout tables) compiled under optimizeCFF {0,1,2} x subroutinizer {None,cffsubr,compreffor} x cffVersion "
-        "{1,2}; every glyph's drawing operations, hmtx and layout table bytes compared with the (0,None,1) build. Non-trivial = "
+        "liga feature for layout tables; half of them renamed through public.postscriptNames maps that swap, chain or are plain) compiled under optimizeCFF {0,1,2} x subroutinizer {None,cffsubr,compreffor} x cffVersion "
+        "{1,2}; every glyph's drawing operations (by glyph index; a straight axis-parallel run of two lines folded by the specialiser counts as the same outline), glyph order, hmtx and layout table bytes compared with the (0,None,1) build. Non-trivial = "
         "font has >= 2 glyphs with curves (so subroutinisation/specialisation has something to do).")
 ASSUMPTIONS = ["RecordingPen faithfully reports the drawing operations of a charstring"]
 
